@@ -105,12 +105,24 @@ def repeated_head(ast, heads=()):
     return any(repeated_head(a, tuple(heads) + tuple(hs)) for a in ast[3])
 
 
+def means_any(a, all_names=()):
+    """the pattern is `_` for the parser: `_`, a complement that excludes no symbol of the grammar, or a
+    pattern with such a complement as head and only such arguments"""
+    if a[0] == "any":
+        return True
+    if a[0] == "set":
+        return bool(a[2]) and not (set(a[1]) & set(all_names))
+    if a[0] == "func":
+        return bool(a[2]) and not (set(a[1]) & set(all_names)) and all(means_any(x, all_names) for x in a[3])
+    return False
+
+
 def trivial_func(ast, all_names=()):
-    """every argument pattern is `_`, or a complement `^names` that excludes no symbol of the grammar"""
-    return ast[0] == "func" and all(a[0] == "any" or (a[0] == "set" and a[2] and not (set(a[1]) & set(all_names))) for a in ast[3])
+    """every argument pattern means `_`"""
+    return ast[0] == "func" and all(means_any(a, all_names) for a in ast[3])
 
 
-def regions(item, is_sketch, used_vars, all_names):
+def regions(item, is_sketch, used_vars, all_names, has_consts=False):
     """decidable classifiers of the known-defect regions, on the case only"""
     r = set()
     ast, style = item["ast"], item.get("style", {})
@@ -121,8 +133,12 @@ def regions(item, is_sketch, used_vars, all_names):
         if trivial_func(a, all_names) and (nested or is_sketch):
             sel = set(a[1])
             eff = (set(all_names) - sel) if a[2] else (sel & set(all_names))
-            if eff != set(all_names):
+            # harmless only when the head set is EVERY symbol of the grammar (a Constant is in no named set)
+            if eff != set(all_names) or has_consts:
                 r.add("C05-F2")
+        # with Constants in the grammar, a complement that excludes nothing is read as `_` (which a Constant matches)
+        if has_consts and a[0] in ("set", "func") and a[2] and not (set(a[1]) & set(all_names)):
+            r.add("C05-F2")
         if a[0] == "cnt" and a[2][0] == "all" and style.get("all_paren"):
             r.add("C05-F4")
         if a[0] == "set" and a[2] and style.get("neg_paren"):
@@ -139,11 +155,14 @@ def regions(item, is_sketch, used_vars, all_names):
 
 # ------------------------------------------------------------------ the documented meaning (independent oracle)
 def o_sel(names, neg, label):
+    """label None = a Constant: not a member of P (primitive names and variables), so of no set"""
+    if label is None:
+        return False
     return (label not in names) if neg else (label in names)
 
 
 def o_cnt(st, t):
-    me = 1 if (st[0] == "all" or t[0] in st[1]) else 0
+    me = 1 if (t[0] is not None and (st[0] == "all" or t[0] in st[1])) else 0
     return me + sum(o_cnt(st, k) for k in t[1])
 
 
@@ -213,7 +232,7 @@ def canon_tok(x):
 def canon_impl_tok(tok):
     from synth.filter.constraints import parsing as P
     def ss(l):
-        return tuple(sorted(set(str(p) for p in l)))
+        return tuple(sorted(set(f"{p}:{p.type}" for p in l)))
     if isinstance(tok, P.TokenAnything):
         return ("any",)
     if isinstance(tok, P.TokenAllow):
@@ -265,11 +284,15 @@ def expand_rules(cfg, limit):
 
 
 def tname(t):
-    return (str(t[0]), tuple(tname(k) for k in t[1]))
+    """the tree the documented meaning is evaluated on: labels are NAMES (a word of a constraint denotes
+    every letter with that name, whatever its type); a Constant has no name"""
+    from synth.syntax.program import Constant
+    return (None if isinstance(t[0], Constant) else str(t[0]), tuple(tname(k) for k in t[1]))
 
 
 def tstr(t):
-    return t[0] if not t[1] else "(" + " ".join([t[0]] + [tstr(k) for k in t[1]]) + ")"
+    h = "<const>" if t[0] is None else t[0]
+    return h if not t[1] else "(" + " ".join([h] + [tstr(k) for k in t[1]]) + ")"
 
 
 def to_prog(t):
@@ -432,9 +455,34 @@ def make_odd(rng, text, ast, names):
     return text + " ", "trail"
 
 
+POLY = {"head": ("'a list -> 'a", 1), "tail": ("'a list -> 'a list", 1), "cons": ("'a -> 'a list -> 'a list", 2),
+        "+": ("int -> int -> int", 2), "1": ("int", 0), "len": ("'a list -> int", 1), "nil": ("'a list", 0),
+        "swap": ("'a list -> 'a list", 1), "0": ("int", 0)}
+POLY_REQ = ["int list list -> int list -> int", "int list list -> int list", "int list -> int list list -> int list",
+            "int list list -> int", "int list -> int -> int list", "int list list list -> int list"]
+
+
+def gen_poly(rng):
+    """a DSL with polymorphic primitives, instantiated by the library at every type of the request's list tower:
+    the grammar then uses ONE NAME AT SEVERAL TYPES (several automaton letters)"""
+    names = ["head", "tail"] + rng.sample(["cons", "+", "1", "len", "nil", "swap", "0"], rng.randint(1, 4))
+    if rng.random() < 0.3:
+        names.remove(rng.choice(["head", "tail"]))
+    req = rng.choice(POLY_REQ)
+    return {"syntax": {n: POLY[n][0] for n in names}, "request": req, "bound": 5}, names, req.count("->")
+
+
 def gen(rng, i, tier):
     r = rng.random()
-    if r < 0.3:
+    poly = None
+    if r < 0.22:
+        poly, pnames, pnargs = gen_poly(rng)
+        prims = [[n, "poly"] for n in pnames]
+        request = poly["request"]
+        forbidden = []
+        if rng.random() < 0.2:
+            forbidden = [[rng.choice(["head", "tail"]), 0, [rng.choice(pnames)]]]
+    elif r < 0.3 + 0.15:
         base = rng.choice(CLASSIC)
         prims = [list(p) for p in base["prims"]]
         request = base["request"]
@@ -449,13 +497,21 @@ def gen(rng, i, tier):
         request = jl(G.random_request(rng, syn))
         forbidden = [[k[0], k[1], v] for k, v in syn["forbidden"].items()] if rng.random() < 0.4 else []
     case = {"prims": prims, "forbidden": forbidden, "request": request,
-            "max_depth": rng.choice([2, 3, 3, 3, 4]) if r < 0.3 else rng.choice([2, 2, 3, 3, 3]),
+            "max_depth": rng.choice([2, 3, 3, 3, 4]) if r < 0.45 else rng.choice([2, 2, 3, 3, 3]),
             "min_var": rng.choice([0, 0, 0, 0, 1, 1, 2]),
             "n_gram": rng.choice([2, 2, 2, 1, 3]),
             "nseed": rng.randrange(1 << 30)}
-    nargs = len(G.args_ret(_tt(request))[0])
+    if poly:
+        case["poly"] = poly
+        case["max_depth"] = rng.choice([3, 3, 4])
+        nargs = pnargs
+        funs = [(n, POLY[n][1]) for n in pnames if POLY[n][1] > 0]
+    else:
+        nargs = len(G.args_ret(_tt(request))[0])
+        funs = [(p[0], len(G.args_ret(_tt(p[1]))[0])) for p in prims if isinstance(p[1], list) and p[1][0] == "->"]
+        if rng.random() < 0.12:
+            case["const_types"] = [rng.choice(["int", "bool", "str"])]
     names = [p[0] for p in prims] + [f"var{j}" for j in range(nargs)]
-    funs = [(p[0], len(G.args_ret(_tt(p[1]))[0])) for p in prims if isinstance(p[1], list) and p[1][0] == "->"]
     items = []
     nc = rng.choice([0, 1, 1, 1, 2, 2, 3])
     want_sketch = rng.random() < 0.45 or nc == 0
@@ -518,6 +574,20 @@ def corpus():
         {"prims": [["+", ["->", "int", ["->", "int", "int"]]], ["1", "int"]], "forbidden": [],
          "request": ["->", "int", ["->", "str", ["->", "int", "int"]]], "max_depth": 2, "min_var": 0, "n_gram": 2, "nseed": 1,
          "constraints": [{"ast": f("+", ["set", ["var1"], False], ["any"]), "style": {}, "text": "(+ var1 _)"}], "sketch": None},
+        # one name at two types (polymorphic head / tail): a word denotes every letter with that name (seeded C05-1)
+        {"prims": [["head", "poly"], ["tail", "poly"], ["+", "poly"], ["1", "poly"]], "forbidden": [],
+         "poly": {"syntax": {"head": "'a list -> 'a", "tail": "'a list -> 'a list", "+": "int -> int -> int", "1": "int"},
+                  "request": "int list list -> int list -> int", "bound": 5},
+         "request": "int list list -> int list -> int", "max_depth": 4, "min_var": 0, "n_gram": 2, "nseed": 1,
+         "constraints": [{"ast": f("head", ["set", ["tail"], True]), "style": {}, "text": "(head ^tail)"},
+                         {"ast": f("+", ["cnt", "most", ["names", ["head"]], 1], ["any"]), "style": {}, "text": "(+ #(head)<=1 _)"}],
+         "sketch": None},
+        {"prims": [["head", "poly"], ["tail", "poly"], ["+", "poly"], ["1", "poly"]], "forbidden": [],
+         "poly": {"syntax": {"head": "'a list -> 'a", "tail": "'a list -> 'a list", "+": "int -> int -> int", "1": "int"},
+                  "request": "int list list -> int list -> int", "bound": 5},
+         "request": "int list list -> int list -> int", "max_depth": 4, "min_var": 0, "n_gram": 2, "nseed": 2,
+         "constraints": [{"ast": f("tail", ["set", ["tail", "var0"], False]), "style": {}, "text": "(tail tail,var0)"}],
+         "sketch": {"ast": f("+", ["sub", "force", ["head"]], ["sub", "forbid", ["tail"]]), "style": {}, "text": "(+ >(head) >^(tail))"}},
     ]
     return out
 
@@ -731,17 +801,27 @@ def check(case, M):
     md, mv, ng = case["max_depth"], case["min_var"], case["n_gram"]
     items = list(case["constraints"])
     sk_item = case["sketch"]
-    key = json.dumps([case["prims"], case["forbidden"], case["request"], md, mv, ng, [it["text"] for it in items], sk_item["text"] if sk_item else None])
+    key = json.dumps([case["prims"], case.get("poly"), case.get("const_types"), case["forbidden"], case["request"], md, mv, ng, [it["text"] for it in items], sk_item["text"] if sk_item else None])
     tags = [f"depth{md}", f"minvar{mv}", f"ngram{ng}", f"constraints{len(items)}", "sketch" if sk_item else "nosketch"]
     if forb:
         tags.append("forbidden")
     failures = []
     res = {"key": key, "nontrivial": False, "tags": tags, "failures": failures,
            "sample": {"constraints": [it["text"] for it in items], "sketch": sk_item["text"] if sk_item else None}}
-    dsl = DSL({n: W.tt_repo(t) for n, t in prims}, {k: set(v) for k, v in forb.items()})
-    tr = W.tt_repo(request)
+    if case.get("poly"):
+        from synth.syntax import auto_type
+        dsl = DSL(auto_type(dict(case["poly"]["syntax"])), {k: set(v) for k, v in forb.items()})
+        dsl.instantiate_polymorphic_types(case["poly"].get("bound", 5))
+        tr = auto_type(case["poly"]["request"])
+        tags.append("polymorphic")
+    else:
+        dsl = DSL({n: W.tt_repo(t) for n, t in prims}, {k: set(v) for k, v in forb.items()})
+        tr = W.tt_repo(request)
+    cts = {W.tt_repo(_tt(t)) for t in case.get("const_types", [])}
+    if cts:
+        tags.append("constant-types")
     try:
-        cfg = CFG.depth_constraint(dsl, tr, md, mv, ng)
+        cfg = CFG.depth_constraint(dsl, tr, md, mv, ng, False, cts)
     except KeyError:
         tags.append("empty-language(KeyError)")
         return res
@@ -755,14 +835,13 @@ def check(case, M):
         tags.append("empty-language")
         return res
     symbols = sorted({P for S in cfg.rules for P in cfg.rules[S]}, key=str)
-    if any(not isinstance(P, (Primitive, Variable)) for P in symbols):
+    named_syms = [P for P in symbols if isinstance(P, (Primitive, Variable))]     # P of the documentation
+    if len(named_syms) != len(symbols):
         tags.append("constants")
-        return res
     used_vars = sorted(P.variable for P in symbols if isinstance(P, Variable))
-    all_names = [str(P) for P in symbols]
-    if len(set(all_names)) != len(all_names):
-        tags.append("homonyms")          # one name at two types (polymorphic instances): names are ambiguous
-        return res
+    all_names = list(dict.fromkeys(str(P) for P in named_syms))
+    if len(all_names) != len(named_syms):
+        tags.append("homonyms")          # one name at several types (polymorphic instances): a word denotes all of them
     inlang = set(lang)
     nb = [t for t in neighbours(rng, lang, symbols, max(20, min(150, len(lang)))) if t not in inlang]
     progs = lang + list(dict.fromkeys(nb))
@@ -779,7 +858,7 @@ def check(case, M):
             odd = True
             tags.append("odd:" + it.get("odd", "?"))
             continue
-        reg |= regions(it, is_sk, used_vars, all_names)
+        reg |= regions(it, is_sk, used_vars, all_names, len(named_syms) != len(symbols))
         if repeated_head(it["ast"]):
             exception_region = True
         for a, _ in ast_nodes(it["ast"]):
@@ -847,7 +926,7 @@ def check(case, M):
     # ---- the documented meaning: Lean spec on the AST, and the independent oracle
     local_asts = [] if odd else [by_text[s]["ast"] for s in strings]
     sk_ast = sk_item["ast"] if (sk_item and not odd) else None
-    ans2 = ask(M, [Sym("c05.tokens"), wcfg, [W.sym_wire(p) for p in symbols],
+    ans2 = ask(M, [Sym("c05.tokens"), wcfg, [W.sym_wire(p) for p in named_syms],
                    [ast_wire(a, all_names) for a in local_asts], [Sym("some"), ast_wire(sk_ast, all_names)] if sk_ast else [Sym("none")],
                    wprogs])
     wf, sigf, exact = [str(x) == "1" for x in ans2[1]]
@@ -892,14 +971,40 @@ def check(case, M):
         else:
             failures.append({"kind": "oracle", "what": what, "detail": detail})
     # ---- model
-    if biggest > MODEL_CAP:
-        tags.append("model-skipped(table too large)")
-        if in_region:
-            # inside a known-defect region only the model can tell the known deviation from a new one
-            tags.append("unverified-region-deviation")
-        return res
     prim_syms = [P for P in cfg.primitives_used()]
     var_syms = cfg.variables()
+    if biggest > MODEL_CAP:
+        # the tables are too large for the association-list model: its LANGUAGE is known by theorem C05_sharpen
+        # (accepts = sharpenSpec (cfg2dfta G).accepts (parsed tokens)); parsed tokens and the base table are still compared
+        tags.append("model-by-theorem(table too large)")
+        ans = ask(M, [Sym("c05.lang"), model_fixes(), wcfg, [W.sym_wire(p) for p in prim_syms], [W.sym_wire(v) for v in var_syms],
+                      strings, [Sym("some"), sketch_text] if sk_item else [Sym("none")], wprogs])
+        stage = None
+        if ans[0] == "fail":
+            stage = str(ans[1])
+            ans = [ans[0]] + ans[2:]
+        m_toks = [canon_tok(x) for x in ans[1]] + ([canon_tok(ans[2])] if sk_item else [])
+        if m_toks != impl_toks:
+            j = next(k for k in range(len(m_toks)) if m_toks[k] != impl_toks[k])
+            failures.append({"kind": "corr", "what": "parsed token tree differs from the model",
+                             "detail": f"string {(strings + [sketch_text])[j]!r}: library {impl_toks[j]} / model {m_toks[j]}"})
+        if stage is not None:
+            if impl_err is None:
+                failures.append({"kind": "corr", "what": "model raises, library does not", "detail": f"stage {stage}"})
+            return res
+        if impl_err is not None:
+            failures.append({"kind": "corr", "what": "library raises, model does not", "detail": f"{impl_err}"})
+            return res
+        ib = sorted(json.dumps([str(P), [[str(a[0]), a[1]] for a in args], [str(d[0]), d[1]]]) for (P, args), d in ibase.rules.items())
+        mb = sorted(json.dumps([str(r[0]), [[str(a[0]), int(a[1])] for a in r[1]], [str(r[2][0]), int(r[2][1])]]) for r in ans[3])
+        if ib != mb:
+            failures.append({"kind": "corr", "what": "__cfg2dfta__ rule table differs from the model", "detail": f"{len(ib)} vs {len(mb)} rules"})
+        m_acc = str(ans[4])
+        if i_acc != m_acc:
+            k = next(j for j in range(len(progs)) if i_acc[j] != m_acc[j])
+            failures.append({"kind": "corr", "what": "acceptance differs from the model (language by theorem C05_sharpen)",
+                             "detail": f"{tstr(named[k])}: library {i_acc[k]} / model {m_acc[k]}"})
+        return res
     ans = ask(M, [Sym("c05.sharpen"), model_fixes(), wcfg, [W.sym_wire(p) for p in prim_syms], [W.sym_wire(v) for v in var_syms],
                   strings, [Sym("some"), sketch_text] if sk_item else [Sym("none")], wprogs])
     stage = None
@@ -933,7 +1038,9 @@ def check(case, M):
         res["nontrivial"] = True
         return res
     m_steps, m_sk, m_final = num(ans[hdr + 2]), num(ans[hdr + 3]), num(ans[hdr + 4])
-    m_acc, m_read, m_spec, base_bits, _ing = [str(x) for x in ans[hdr + 5: hdr + 10]]
+    m_acc, m_read, m_spec, base_bits, m_thm = [str(x) for x in ans[hdr + 5: hdr + 10]]
+    if m_acc != m_thm:
+        raise RuntimeError("Lean model's automaton and sharpenSpec over L(cfg2dfta G) disagree (contradicts theorem C05_sharpen)")
     if impl_err is not None:
         failures.append({"kind": "corr", "what": "library raises, model does not", "detail": f"{impl_err}"})
         return res
